@@ -3,6 +3,7 @@ import PdfModel.Generated.Lexical
 import PdfModel.Lemmas.PageTreeBytes
 import PdfModel.Model.PageTreeDerived
 import PdfModel.Lemmas.PageTreeDerived
+import PdfModel.Lemmas.PageTreeDerivedBoxTrees
 
 /-!
   C07 — "Page n is the n-th leaf of the page tree; attributes come from nearest ancestor".
@@ -416,6 +417,61 @@ theorem page_nth_bytes_partial3 (bitsOf : R → Nat) (hdf : DefaultZeroEvaluates
   simp only [Out.ok.injEq, Prod.mk.injEq, true_and] at hopen'
   obtain ⟨rfl, _⟩ := hopen'
   exact derived_agrees_attr_free_bytes bitsOf hdf _ (.node id a ks) rfl hfree hh hobjs
+
+/-- the same for trees whose nodes carry media and crop boxes (markers below 2²⁴ so that `Rectangle`'s `f32` entries are
+    exact; no /Resources): the `Rectangle` reader, the float conversion and its decoding are all inside the proof. -/
+theorem derived_agrees_boxes_bytes (bitsOf : R → Nat) (hdf : DefaultZeroEvaluates)
+    (resolve : Nat → Out (Offsets.Obj (Prim R))) (t : PTree) (hn : isNode t = true) (hf : boxOnly t = true)
+    (hh : height t ≤ 16) (hres : ∀ q ∈ (objsOf none t : List (Nat × Prim R)), resolve q.1 = .ok (.plain q.2)) :
+    DerivedAgrees bitsOf resolve t :=
+  derived_agrees_boxes bitsOf resolve hdf t hn hf (by omega) hres
+
+/-- **Page i of the written file is the i-th leaf, with inherited boxes — from the bytes, with the generated readers, for
+    trees carrying media and crop boxes** (no /Resources): the only hypothesis left is `DefaultZeroEvaluates`. -/
+theorem page_nth_bytes_partial4 (bitsOf : R → Nat) (hdf : DefaultZeroEvaluates) (fmt : R → List UInt8) (env : Env R)
+    (hd : env.decrypt = none) (pfuel : Nat) (dec : Dict R → List UInt8 → Out (List UInt8)) (hdec : NoFilter dec) (id : Nat)
+    (a : Attrs) (ks : List PTree) (n : Nat) (hn : n ≤ 1000000) (hnd : (idsOf (.node id a ks)).Nodup)
+    (hrange : ∀ x ∈ idsOf (.node id a ks), 1 ≤ x ∧ x ≤ n) (hbox : boxOnly (.node id a ks) = true)
+    (hh : height (.node id a ks) ≤ 16) (hc : nLeaves (.node id a ks) ≤ 2147483647)
+    (bytes : List UInt8) (hw : writeDoc fmt (.node id a ks) n = .ok bytes)
+    (hsmall : bytes.length ≤ fileMax) (hpf : 3 * bytes.length ≤ pfuel) (rfuel lfuel : Nat) (hl : 16 < lfuel) (i : Nat) :
+    getPageBD bitsOf env pfuel dec 2 (rfuel + 2) lfuel bytes i =
+      (if h : i < (leavesOf (.node id a ks)).length then .ok ((leavesOf (.node id a ks))[i]) else .err) ∧
+    numPagesBD bitsOf env pfuel dec 2 (rfuel + 2) lfuel bytes = .ok (leavesOf (.node id a ks)).length := by
+  have hm : markersOK (.node id a ks) = true := markersOK_of_boxOnly _ hbox
+  refine page_nth_bytes_partial2 bitsOf fmt env hd pfuel dec hdec id a ks n hn hnd hrange hm hh hc bytes hw hsmall hpf rfuel lfuel hl ?_ i
+  intro tb T hopen
+  obtain ⟨b', inf, hs, rfl⟩ : ∃ b' inf, saveB fmt true (preparedDoc fmt (.node id a ks) n) = (b', .ok inf) ∧ b'.bytes = bytes := by
+    unfold writeDoc at hw
+    cases hsv : saveB fmt true (preparedDoc fmt (.node id a ks) n) with
+    | mk b' r =>
+      rw [hsv] at hw
+      cases r with
+      | ok inf => simp only [Out.ok.injEq] at hw; exact ⟨b', inf, rfl, hw⟩
+      | err => cases hw
+      | panic => cases hw
+      | oof => cases hw
+  obtain ⟨tb', T', hopen', _, _, hobjs⟩ := written_objects fmt env hd pfuel dec hdec (.node id a ks) n hn hnd hrange hm hc
+    b' inf hs hsmall hpf rfuel
+  rw [hopen] at hopen'
+  simp only [Out.ok.injEq, Prod.mk.injEq, true_and] at hopen'
+  obtain ⟨rfl, _⟩ := hopen'
+  exact derived_agrees_boxes_bytes bitsOf hdf _ (.node id a ks) rfl hbox hh hobjs
+
+/-- the media box of page i of such a file, read from the bytes by the generated readers, is the nearest one on the way
+    to the root -/
+theorem media_box_nearest_bytes_boxes (bitsOf : R → Nat) (hdf : DefaultZeroEvaluates) (fmt : R → List UInt8) (env : Env R)
+    (hd : env.decrypt = none) (pfuel : Nat) (dec : Dict R → List UInt8 → Out (List UInt8)) (hdec : NoFilter dec) (id : Nat)
+    (a : Attrs) (ks : List PTree) (n : Nat) (hn : n ≤ 1000000) (hnd : (idsOf (.node id a ks)).Nodup)
+    (hrange : ∀ x ∈ idsOf (.node id a ks), 1 ≤ x ∧ x ≤ n) (hbox : boxOnly (.node id a ks) = true)
+    (hh : height (.node id a ks) ≤ 16) (hc : nLeaves (.node id a ks) ≤ 2147483647)
+    (bytes : List UInt8) (hw : writeDoc fmt (.node id a ks) n = .ok bytes)
+    (hsmall : bytes.length ≤ fileMax) (hpf : 3 * bytes.length ≤ pfuel) (rfuel lfuel : Nat) (hl : 16 < lfuel) (i : Nat)
+    (hi : i < (leavesOf (.node id a ks)).length) :
+    getPageBD bitsOf env pfuel dec 2 (rfuel + 2) lfuel bytes i = .ok ((leavesOf (.node id a ks))[i]) := by
+  have h := (page_nth_bytes_partial4 bitsOf hdf fmt env hd pfuel dec hdec id a ks n hn hnd hrange hbox hh hc bytes hw hsmall hpf
+    rfuel lfuel hl i).1
+  rw [h, dif_pos hi]
 
 /-! ### non-vacuity at byte level: a document is written, its bytes are opened, its pages are found -/
 
